@@ -289,6 +289,13 @@ addresses per family. non-trivial = >= 2 addresses with >= 2 different behaviour
                 }
             }
         }
+        // a connect timeout shorter than the race interval: an attempt that times out is one failed attempt, not the end of the race
+        for v6_first in [true, false] {
+            all.push(Case { addrs: vec![(v6_first, Beh::BlackHole), (!v6_first, Beh::Accept)], connect_ms: 100, deadline: 0 });
+            all.push(Case { addrs: vec![(v6_first, Beh::BlackHole), (v6_first, Beh::Accept)], connect_ms: 100, deadline: 0 });
+            all.push(Case { addrs: vec![(v6_first, Beh::BlackHole), (!v6_first, Beh::BlackHole), (v6_first, Beh::Accept)], connect_ms: 100, deadline: 0 });
+            all.push(Case { addrs: vec![(v6_first, Beh::BlackHole), (!v6_first, Beh::Refuse), (v6_first, Beh::BlackHole)], connect_ms: 100, deadline: 0 });
+        }
         // late acceptors: pairs and triples where a success can only arrive after the stagger
         for other in [Beh::Refuse, Beh::BlackHole, Beh::Accept] {
             for v6_late in [true, false] {
@@ -323,7 +330,7 @@ addresses per family. non-trivial = >= 2 addresses with >= 2 different behaviour
         let beh = prop_oneof![3 => Just(Beh::Accept), 3 => Just(Beh::Refuse), 3 => Just(Beh::BlackHole), 2 => Just(Beh::LateAccept)];
         (
             proptest::collection::vec((any::<bool>(), beh), 2..7),
-            prop_oneof![2 => Just(600u16), 2 => Just(900u16), 3 => Just(1800u16)],
+            prop_oneof![2 => Just(100u16), 2 => Just(600u16), 2 => Just(900u16), 3 => Just(1800u16)],
             prop_oneof![5 => Just(0u8), 1 => Just(1u8), 1 => Just(2u8), 2 => Just(3u8), 2 => Just(4u8)],
         )
             .prop_map(|(mut addrs, connect_ms, deadline)| {
@@ -339,6 +346,9 @@ addresses per family. non-trivial = >= 2 addresses with >= 2 different behaviour
                         n4 <= 3
                     }
                 });
+                // with a 100 ms connect timeout every attempt boundary falls on a multiple of 100 ms, which is where the 100 ms
+                // and 500 ms deadlines lie: whether the next attempt still starts would be a coin toss, so no deadline then
+                let deadline = if connect_ms < 200 { 0 } else { deadline };
                 Case { addrs, connect_ms, deadline }
             })
             .boxed()
